@@ -21,7 +21,7 @@ for k in sorted(notes, key=lambda s: (s[:3], int(s[4:]))):
     ex, sig = now.get(k, ('?', 'not run'))
     rows.append(f'| {k} | {what} | {needs} | {fr} | {st or "—"} | {"exit " + ex + ": " + (sig or "—")} |')
 caught_now = sum(1 for k in notes if now.get(k, ('0',))[0] == '1')
-head = (f'Rounds 2 to 5: {len(notes)} changes. First run (before any strengthening): {first["caught"]} reported, {first["missed"]} missed. '
+head = (f'Rounds 2 to 6: {len(notes)} changes. First run (before any strengthening): {first["caught"]} reported, {first["missed"]} missed. '
         f'With the checks as committed: {caught_now} of {len(notes)} reported by the quick check of their own property '
         f'(`tools/seed_matrix.sh`, default seed).\n\n')
 text = head + '\n'.join(rows) + '\n'
